@@ -33,8 +33,10 @@ CHECKS = {
         "three-factor integrals; origin-shift law on the library's own lower moments",
         "Generated-input search: 25 l-pairs enumerated, order lists drawn from (0..4)^3 with repetition and arbitrary "
         "sequence (all 125 triples swept in a second sub-check), origins on/off/far; compared with an independent "
-        "oracle at 1e-8 of the Cauchy-Schwarz scale, plus (0,0,0)=overlap and the binomial origin-shift law.",
-        "Trusts vf/ref R1/R3/R4; shift law judged at the rounding scale each lower library moment is entitled to.",
+        "oracle at 1e-8 of the Cauchy-Schwarz scale, plus (0,0,0)=overlap and the binomial origin-shift law. "
+        ' Shell blocks also judged element-wise at 1e-9 of their conditioning scale + 1e-13 of the natural scale.',
+        "Trusts vf/ref R1/R3/R4; shift law judged at the rounding scale each lower library moment is entitled to. "
+        ' ',
         "DESIGN.md 6/C07",
     ),
     "C08": (
@@ -42,8 +44,10 @@ CHECKS = {
         "Hermiticity and exhaustive shell-reordering law per case",
         "Generated-input search: 25 l-pairs enumerated; upper, lower and diagonal shell blocks all compared with "
         "independently computed <a|-i grad|b>, <a|-i r x grad|b>; Hermiticity, zero real part, both block "
-        "orientations, every ordering of the shells, optional transformation.",
-        "Trusts vf/ref R1/R3/R4. Found and repaired D1 (fix commit 3c1ecf0).",
+        "orientations, every ordering of the shells, optional transformation. "
+        ' Shell blocks also judged element-wise at 1e-9 of their conditioning scale + 1e-13 of the natural scale; extreme-ratio pairs (tight exponents up to 300 x cap).',
+        "Trusts vf/ref R1/R3/R4. Found and repaired D1 (fix commit 3c1ecf0). "
+        " C08 states no tolerance: the conditioning criterion is the check's reading of 'exact' (unchanged library <= 0.013 of it under guided search).",
         "DESIGN.md 6/C08",
     ),
     "C05": (
@@ -51,8 +55,10 @@ CHECKS = {
         "oracle; back-end agreement and reject-or-equal rule",
         "Generated-input search: l up to 6, points on centres/planes/far, order triples from (0..4)^3 (all 125 swept per "
         "basis in a second sub-check), both back-ends, transformations; judged at 1e-9 of sum|terms|; direct back-end "
-        "with order>=3 or unknown back-end names must raise or return the reference numbers.",
-        "Trusts vf/ref R5 (selftest vs mpmath.diff). Found and repaired D4 (direct back-end, order>=3).",
+        "with order>=3 or unknown back-end names must raise or return the reference numbers. "
+        ' Array forms of the points (layout, integer grid, float32 grid) and the class-level EvalDeriv entry points.',
+        "Trusts vf/ref R5 (selftest vs mpmath.diff). Found and repaired D4 (direct back-end, order>=3). "
+        ' ',
         "DESIGN.md 6/C05",
     ),
     "C06": (
@@ -79,9 +85,11 @@ CHECKS = {
         "independent McMurchie-Davidson oracle with a 40-digit arbiter",
         "Generated-input search: 36 l-pairs enumerated, charges on centres / midpoint / near / far with either sign; "
         "per-charge arrays compared at 1e-8*sqrt(|V_aa V_bb|), both block orientations (internal swap), and the "
-        "nuclear-attraction matrix against the sum over charges.",
+        "nuclear-attraction matrix against the sum over charges. "
+        ' Enumerated corners for equal l = 2..5 (diffuse / tight / middle / wide contractions, both orders, subclass Cartesian order), extreme-ratio pairs, charge dtypes (rejected or right).',
         "Trusts vf/ref R2 (selftest: Gaussian-transform quadrature, mpmath, HORTON). Float-oracle deviations are "
-        "re-judged at 40 digits before they count.",
+        "re-judged at 40 digits before they count. "
+        ' Found and repaired D13, D15, D16 (fix commits 8a63be1, 938bcc9, 62a2837).',
         "DESIGN.md 6/C03",
     ),
     "C04": (
@@ -89,10 +97,12 @@ CHECKS = {
         "whole-basis calls, and a fixed keyed list of ill-conditioned quartets, vs McMurchie-Davidson oracle",
         "Generated-input search: all 256 (l1..l4) in 0..3 at block level, whole-basis chemist/physicist/transform calls "
         "with mixed coordinate types, and 251 realistic tight-core/diffuse quartets in both orientations; judged at "
-        "1e-6 of the oracle Schwarz scale with a 40-digit arbiter.",
+        "1e-6 of the oracle Schwarz scale with a 40-digit arbiter. "
+        ' Enumerated corners (972 quartets), one-contraction-on-every-shell quartets, many-primitive quartets with a recursion work space up to 2^25.',
         "Trusts vf/ref R2. Random part limited to exponents 0.1-10 (0.2-5 with f); ill-conditioned region decided on "
         "the fixed list only. Absolute floor 1e-30 for pairs whose overlap distribution underflows. Found and repaired "
-        "D11 (bra/ket orientation).",
+        "D11 (bra/ket orientation). "
+        " Found and repaired D14 (fix commit 4ccd3a5; first seen by C11's thorough tier).",
         "DESIGN.md 6/C04",
     ),
     "C14": (
@@ -111,8 +121,10 @@ CHECKS = {
         "phase predicates and an independent recurrence construction",
         "All 121 functions l <= 10 checked in every run as explicit polynomials (harmonic, orthonormal, cos/sin "
         "partnership with positive factor at the pole, documented order, equal to the recurrence oracle); every Cartesian "
-        "order and label order x sign pattern for l <= 2 enumerated, l = 3..6 drawn; 19 kinds of invalid convention must raise.",
-        "Trusts the closed-form same-shell overlap and vf/ref R4. Found and repaired D10 (embedded '-' accepted).",
+        "order and label order x sign pattern for l <= 2 enumerated, l = 3..6 drawn; 19 kinds of invalid convention must raise. "
+        ' Every sequence of 2l+1 signed labels enumerated for l <= 1 (l = 2: every 16th quick, all 100 000 thorough).',
+        "Trusts the closed-form same-shell overlap and vf/ref R4. Found and repaired D10 (embedded '-' accepted). "
+        ' ',
         "DESIGN.md 6/C10",
     ),
     "C18": (
@@ -143,8 +155,10 @@ CHECKS = {
         "index-symmetry predicates; independent block orientations (2 per two-index kernel, 8 per ERI quartet)",
         "Generated bases with every shell ordering enumerated; results must change only by the block permutation; symmetric / "
         "Hermitian / eight-fold symmetry of results; shell blocks computed in every orientation independently, for generated "
-        "quartets and for the fixed ill-conditioned list of C04.",
-        "ERI relations at 2e-6 of the Schwarz scale (library-derived), others 1e-9/1e-8 of natural magnitudes.",
+        "quartets and for the fixed ill-conditioned list of C04. "
+        ' Orientation sub-checks also over many-primitive quartets, one-contraction-on-every-shell quartets and diffuse/very tight pairs.',
+        "ERI relations at 2e-6 of the Schwarz scale (library-derived), others 1e-9/1e-8 of natural magnitudes. "
+        ' ',
         "DESIGN.md 6/C11",
     ),
     "C13": (
@@ -161,8 +175,10 @@ CHECKS = {
         "returned for generated bases incl. nearly linearly dependent ones",
         "Generated bases (plain, exponent-scaled duplicates down to 1e-8, displaced duplicates down to 1e-6 bohr), positive "
         "charges anywhere: S PSD with |S_ab|<=1, T PSD, V(q>0) NSD, ERI pair matrix symmetric PSD with Schwarz bound, at the "
-        "rounding allowances the property states.",
-        "Trusts numpy.linalg.eigvalsh.",
+        "rounding allowances the property states. "
+        ' Many-primitive shells (every count enumerated) and positive charges in unsigned / 32-bit dtypes (rejected or still negative semi-definite).',
+        "Trusts numpy.linalg.eigvalsh. "
+        ' ',
         "DESIGN.md 6/C17",
     ),
     "C20": (
@@ -170,8 +186,10 @@ CHECKS = {
         "monotonicity and conservativeness predicates",
         "Generated bases/tolerances with a pair at the cutoff boundary: kept blocks bit-identical, removed blocks exactly zero, "
         "None = no screening, monotone in the tolerance, removed s-s elements below the analytic bound, bool rejected, "
-        "tolerance forwarded through the transformation path.",
-        "Pairs within 1e-12 (relative) of the cutoff are not judged.",
+        "tolerance forwarded through the transformation path. "
+        " 'No tolerance means no screening' is asked of the wrapper, the class-level methods and the asymmetric overlap.",
+        "Pairs within 1e-12 (relative) of the cutoff are not judged. "
+        ' ',
         "DESIGN.md 6/C20",
     ),
     "C12": (
@@ -180,8 +198,10 @@ CHECKS = {
         "Generated systems moved rigidly (centres, points, charges, moment origin, density matrix): function values, "
         "gradients, arbitrary-order derivatives and moments (signed permutations), S/T/V/ERI, momentum (vector), angular "
         "momentum (pseudo-vector with the t x p shift), dipole/second moments (tensors), all density-type fields as "
-        "invariants / vectors / rank-2 tensors.",
-        "Trusts vf/ref R6 + R4 representation matrices; tolerances 1e-9 (ERI 2e-6) of natural magnitudes.",
+        "invariants / vectors / rank-2 tensors. "
+        ' Original points in several array forms; density-type quantities also moved with a square non-symmetric transformation; screening-band tolerances.',
+        "Trusts vf/ref R6 + R4 representation matrices; tolerances 1e-9 (ERI 2e-6) of natural magnitudes. "
+        ' ',
         "DESIGN.md 6/C12",
     ),
     "C16": (
@@ -199,10 +219,12 @@ CHECKS = {
         "Generated call histories (valid calls of 31 public functions, 23 kinds of invalid call, parameter changes through "
         "the setters, renormalisation, numpy error-state changes): after every step all pooled arguments/shells are "
         "bit-identical to the model, numpy.geterr() is what the machine set, a valid call equals the same call on never "
-        "shared copies, shells are unit-normalised as constructed and after assign_norm_cont().",
+        "shared copies, shells are unit-normalised as constructed and after assign_norm_cont(). "
+        ' Includes a thresholded electrostatic potential on a 3003-point grid (results must not depend on the process history).',
         "Histories up to 20 (quick) / 30 (thorough) steps; only object kinds in the pool (incl. shells imported through "
         "from_iodata from two stand-in molecules with different conventions, and in-place changes of shell arrays). Failing histories are stored as "
-        "plain step lists and replayed through the same interpreter without Hypothesis. D7 and D9 were found here / in C18.",
+        "plain step lists and replayed through the same interpreter without Hypothesis. D7 and D9 were found here / in C18. "
+        ' ',
         "DESIGN.md 6/C19",
     ),
 }
